@@ -38,11 +38,14 @@ int main()
 {
     tapkee::Logging::instance().disable_info();
     tapkee::Logging::instance().disable_warning();
+    const char* alarm_env = std::getenv("C04_CASE_ALARM");
+    unsigned alarm_s = alarm_env ? (unsigned)std::atoi(alarm_env) : 60;
     std::string line;
     while (std::getline(std::cin, line))
     {
         if (line.empty())
             continue;
+        vh::case_alarm(alarm_s); // a hang is an observation (abort:timeout), not a stalled check
         auto f = vh::fields(line);
         std::cout << (line.rfind("geo ", 0) == 0 ? run_geo(f) : std::string("bad-topic")) << std::endl;
     }
